@@ -66,6 +66,17 @@ from nemoguardrails.utils import console, new_uuid
 log = logging.getLogger(__name__)
 
 
+def _is_plain_data(value: Any) -> bool:
+    """Check if a value only consists of None, booleans, numbers, strings, lists, tuples, sets and dicts."""
+    if value is None or isinstance(value, (bool, int, float, str)):
+        return True
+    if isinstance(value, (list, tuple, set)):
+        return all(_is_plain_data(v) for v in value)
+    if isinstance(value, dict):
+        return all(_is_plain_data(k) and _is_plain_data(v) for k, v in value.items())
+    return False
+
+
 def _remove_leading_empty_lines(s: str) -> str:
     """Remove the leading empty lines if they exist.
 
@@ -786,9 +797,15 @@ class LLMGenerationActionsV2dotx(LLMGenerationActions):
         log.info("Generated value for $%s: %s", var_name, value)
 
         try:
-            return literal_eval(value)
+            literal_value = literal_eval(value)
         except Exception:
             raise Exception(f"Invalid LLM response: `{value}`")
+
+        # Only plain data is a valid value (e.g., no bytes, complex numbers or `...`)
+        if not _is_plain_data(literal_value):
+            raise Exception(f"Invalid LLM response: `{value}`")
+
+        return literal_value
 
     @action(name="GenerateFlowAction", is_system_action=True, execute_async=True)
     async def generate_flow(
